@@ -120,7 +120,10 @@ def _project(coll, ids, has_seq):
         kind = {"transcript": "gene", "feature": "feature", "variant": "variant"}[str(m.interval_type.value)]
         ch = [[ids.setdefault(c.guid, len(ids) + 1), c.start, c.end] for c in m.iter_children()]
         mem.append([ids.setdefault(m.guid, len(ids) + 1), kind, m.start, m.end,
-                    bool(getattr(m, "is_coding", False)) if kind == "gene" else False, sorted(ch),
+                    # a gene is coding exactly when some isoform has a CDS (not the gene's own answer: the oracle
+                    # must not be computed by the code under test)
+                    any(getattr(c, "cds", None) is not None for c in m.iter_children()) if kind == "gene" else False,
+                    sorted(ch),
                     sorted(str(x) for x in m.identifiers)])
     return [coll.start, coll.end, mem, has_seq]
 
